@@ -639,8 +639,10 @@ def _derives_from(cx, ref, call, depth=0):
     if depth > 4:
         return False
     rid = ref["ref"]["id"]
-    ini = cx.inits.get(rid)
-    if ini is None or cx.writes.get(rid, 0) != 0:
+    ini = cx.inits.get(rid) if cx.writes.get(rid, 0) == 0 else None
+    if ini is None:
+        ini = cx.assign1.get(rid)        # declared first, assigned once unconditionally
+    if ini is None:
         return False
     for x in walk(ini):
         if x is call:
